@@ -34,6 +34,8 @@ declare -A DEST=( [C01-a]=tests/seed_demo.rs [C03-a]=tests/seed_c03_demo.rs [C05
  [C13-e]=crates/polytune-server-core/tests/seed_c13e_demo.rs [C14-e]=crates/polytune-server-core/tests/seed_c14e.rs
  [C15-e]=crates/polytune-server-core/tests/c15_demo.rs [C17-e]=crates/polytune-server-core/tests/c17_demo.rs
  [C01-e]=tests/c01e_demo.rs [C05-e]=tests/c05_demo.rs [C09-e]=tests/c09_demo.rs [C12-e]=tests/c12e_demo.rs
+ [C16-e]=crates/polytune-server-core/tests/c16_demo.rs [C19-e]=tests/seed_c19_demo.rs [C03-e]=tests/seed_c03e_demo.rs
+ [C10-e]=MOD:src/mpc/seed_c10_demo.rs:src/mpc.rs:seed_c10_demo
  [C20-a]=MOD:src/transpose/seed_demo.rs:src/transpose.rs:seed_demo )
 names=${@:-$(ls -d /verif/seeded/*/ | xargs -n1 basename)}
 for s in $names; do
@@ -57,7 +59,7 @@ for s in $names; do
     esac
   }
   # (C20-b's demonstration drives the guarded verification wrappers)
-  if [ $s = C20-b ] || [ $s = C20-c ] || [ $s = C19-c ] || [ $s = C10-d ] || [ $s = C03-d ] || [ $s = C06-d ] || [ $s = C20-d ]; then DEMOFLAGS="--cfg polytune_verif --check-cfg cfg(polytune_verif)"; else DEMOFLAGS=""; fi
+  if [ $s = C20-b ] || [ $s = C20-c ] || [ $s = C19-c ] || [ $s = C10-d ] || [ $s = C03-d ] || [ $s = C06-d ] || [ $s = C20-d ] || [ $s = C19-e ]; then DEMOFLAGS="--cfg polytune_verif --check-cfg cfg(polytune_verif)"; else DEMOFLAGS=""; fi
   # with the change
   git apply $d/patch.diff || { echo "$s: PATCH DOES NOT APPLY" >> $LOG; continue; }
   if [ $server = 1 ]; then
